@@ -92,6 +92,15 @@ FloatKinds == {"float32", "float64"}
 HasLiteral(p) == Pt[p].dec # ""
 LitKind(p) == IF Pt[p].int /\ Pt[p].i64 THEN "int64" ELSE "float64"
 
+\* Rounding: the value of kind g nearest to a point may coincide with that of another point.
+\* Canon(p, g) names that value by the point the kind holds exactly (checked by the harness against Go).
+CanonF32 == [ i2p31m1 |-> "i2p31", im2p31m1 |-> "im2p31", i2p53p1 |-> "i2p53", i2p63m1 |-> "i2p63",
+              f1em50 |-> "i0", f1e39 |-> "pinf", f1e300 |-> "pinf" ]
+CanonF64 == [ i2p53p1 |-> "i2p53", i2p63m1 |-> "i2p63" ]
+Canon(p, g) == IF g = "float32" /\ p \in DOMAIN CanonF32 THEN CanonF32[p]
+               ELSE IF g = "float64" /\ p \in DOMAIN CanonF64 THEN CanonF64[p]
+               ELSE p
+
 \* strings are given by their text; these tables classify them
 StrNum == ("42" :> "i42") @@ ("1.5" :> "f1p5") @@ ("4294967297" :> "i2p32p1")
 BoolStr == ("true" :> TRUE)
@@ -147,6 +156,18 @@ Both(a, b) == IF a = "may" \/ b = "may" THEN "may" ELSE "ok"
 MustKinds == ("Int" :> {"int64", "float64", "int32"}) @@ ("Float" :> {"int64", "float64", "float32"}) @@
              ("Float64" :> {"int64", "float64"}) @@ ("Int64" :> {"int64"}) @@ ("ID" :> {"int64"})
 Acc(n, g, v) == IF g \in MustKinds[n] THEN Ok(v) ELSE May(v)
+
+\* the coercion schema of the universe U-coerce
+TInt == Named("Int")
+NumL(p) == Num(p, LitKind(p))
+USchema == [
+  enums |-> [Color |-> {"RED", "GREEN"}],
+  inputs |-> [In |-> << [n |-> "a", t |-> NonNull(TInt), hasDef |-> FALSE, def |-> Null],
+                        [n |-> "b", t |-> Named("String"), hasDef |-> TRUE, def |-> Str("dflt")],
+                        [n |-> "c", t |-> TInt, hasDef |-> TRUE, def |-> NumL("i42")],
+                        [n |-> "l", t |-> ListOf(NonNull(TInt)), hasDef |-> FALSE, def |-> Null],
+                        [n |-> "n", t |-> Named("In"), hasDef |-> FALSE, def |-> Null] >>],
+  objects |-> {"Thing"} ]
 
 -----------------------------------------------------------------------------
 (* PART S, C04: what a written value denotes at an input position *)
@@ -375,9 +396,11 @@ LitIn(S, at, v, env, cx) ==
                        LitIn(S, IF isIn /\ x \in InNames(S, bn) THEN InField(S, bn, x).t ELSE NoType, v.f[x], env, cx)]
              subOk == \A x \in DOMAIN v.f : sub[x].ok
              m == Obj([x \in DOMAIN v.f |-> sub[x].val])
-         IN IF at.k = "none" THEN R(subOk, m)
+         IN IF ~isIn
+            THEN \* no input type in sight: the literal is handed on as parsed - not even its variables are replaced
+                 (IF at.k = "none" \/ "ContainerLiteralUnchecked" \in cx.dv THEN R(TRUE, v) ELSE Fail)
             ELSE IF "ContainerLiteralUnchecked" \in cx.dv
-            THEN (IF isIn THEN LET r == CoIn(S, Named(bn), m, cx) IN R(subOk /\ r.ok, r.val) ELSE R(subOk, m))
+            THEN LET r == CoIn(S, Named(bn), m, cx) IN R(subOk /\ r.ok, r.val)
             ELSE LET r == CoIn(S, at, m, cx) IN R(subOk /\ r.ok, r.val)
     [] v.k = "list" ->
          LET u == Unwrap(at)
@@ -597,10 +620,11 @@ MatchOut(e, act, path, errs) ==
                        /\ \A i \in DOMAIN e.xs : MatchOut(e.xs[i], act.xs[i], Append(path, PIdx(i - 1)), errs)
     [] e.k = "anystr" -> act.k = "str" /\ ~HasErr(errs, path)
     [] e.k = "anytime" -> act.k = "str" /\ act.s \in ValidTimes \cup Range(SecsTime) \cup {"sometime"} /\ ~HasErr(errs, path)
+    [] e.k = "null" -> act.k = "null" /\ ~HasErr(errs, path)
     [] e.k = "num" -> act = e /\ ~HasErr(errs, path)
     [] e.k = "wild" -> act.k = "num" /\ act.g = e.g /\ ~HasErr(errs, path)
-    [] e.k = "raw" -> act = [k |-> "rawof", gv |-> e.gv] /\ ~HasErr(errs, path)
-    [] e.k = "leak" -> act = [k |-> "rawof", gv |-> e.gv] /\ HasErr(errs, path)
+    [] e.k = "raw" -> act = e.gv /\ ~HasErr(errs, path)
+    [] e.k = "leak" -> act = e.gv /\ HasErr(errs, path)
     [] OTHER -> act = e /\ ~HasErr(errs, path)
 \* every reported error addresses a position where the expected tree allows one
 ErrPathsOf(e, path, all) ==
